@@ -289,6 +289,9 @@ func (fc *fnCtx) applyCall(st *State, ce *callee, c *ssa.CallCommon, args []Val,
 	for _, e := range con.Ensures {
 		fc.assume(st, fc.evalAssume(post, e))
 	}
+	for _, e := range con.Defines {
+		fc.assume(st, fc.evalAssume(post, e))
+	}
 	if con.NoReturn {
 		fc.assume(st, "false")
 	}
@@ -701,6 +704,82 @@ func (fc *fnCtx) structLocs(ref string, t types.Type, tg *assignTarget) {
 			tg.keys = append(tg.keys, ref)
 		}
 	}
+}
+
+// callLocWrites: for a call with loop-invariant arguments whose callee lists specific locations in its assigns
+// clause, the written (heap, key) pairs evaluated in the current (loop entry) state.
+func (fc *fnCtx) callLocWrites(c *ssa.CallCommon, blocks map[*ssa.BasicBlock]bool) (locs map[string][]string, ok bool) {
+	defer func() {
+		if e := recover(); e != nil {
+			if _, isU := e.(unsupported); isU {
+				locs, ok = nil, false
+				return
+			}
+			panic(e)
+		}
+	}()
+	if _, isB := c.Value.(*ssa.Builtin); isB {
+		return nil, false
+	}
+	ce := fc.resolveCallee(c)
+	if ce == nil || ce.con == nil || !ce.con.HasAssign || fc.curLoopState == nil {
+		return nil, false
+	}
+	var args []Val
+	dummyArg := func(t types.Type) Val { return Val{T: "dummy!arg", Sort: fc.so.sortOf(t), Typ: t} }
+	if c.IsInvoke() {
+		if fc.definedOutside(c.Value, blocks) {
+			args = append(args, fc.get(c.Value))
+		} else {
+			args = append(args, dummyArg(c.Value.Type()))
+		}
+	}
+	for _, a := range c.Args {
+		if !fc.definedOutside(a, blocks) {
+			args = append(args, dummyArg(a.Type()))
+			continue
+		}
+		v, have := fc.vals[a]
+		if !have {
+			switch a.(type) {
+			case *ssa.Const, *ssa.Global, *ssa.Function:
+				v = fc.get(a)
+			default:
+				args = append(args, dummyArg(a.Type()))
+				continue
+			}
+		}
+		if v.Addr != nil {
+			args = append(args, dummyArg(a.Type()))
+			continue
+		}
+		args = append(args, v)
+	}
+	if len(args) != len(ce.params) {
+		return nil, false
+	}
+	env := &Env{fc: fc, st: fc.curLoopState, old: fc.curLoopState, pkg: ce.pkg, vars: map[string]Val{}}
+	for i, n := range ce.params {
+		a := args[i]
+		if a.Typ == nil {
+			a.Typ = ce.ptypes[i]
+		}
+		env.vars[n] = a
+	}
+	locs = map[string][]string{}
+	for _, a := range ce.con.Assigns {
+		tg := fc.assignTarget(env, a)
+		if tg.kind != "loc" {
+			return nil, false
+		}
+		for i, h := range tg.heaps {
+			if strings.Contains(tg.keys[i], "dummy!arg") {
+				return nil, false // the location depends on a loop-varying argument
+			}
+			locs[h] = append(locs[h], tg.keys[i])
+		}
+	}
+	return locs, true
 }
 
 // callWrites adds the heaps a call may write (static approximation for loop havoc).
